@@ -384,6 +384,19 @@ class Fn:
             return T(nd['ch'][0])
         return ('other', c) + tuple(T(x) for x in nd['ch'])
 
+    # ------------------------------------------------------------- pure expression functions
+    def pure_return(self):
+        """term of `return e;` if the body consists of exactly that statement (a pure expression function), else None"""
+        if not self.body:
+            return None
+        b = self.n(self.body)
+        if b['c'] != 'CompoundStmt' or len(b['ch']) != 1:
+            return None
+        r = self.n(b['ch'][0])
+        if r['c'] != 'ReturnStmt' or not r['ch']:
+            return None
+        return self.term(r['ch'][0], inline=False)
+
     # ------------------------------------------------------------- searches
     def calls(self, root=None, pred=None):
         """node ids of call/construct expressions below root (default: whole function incl. ctor inits)"""
@@ -474,3 +487,26 @@ def fmt_term(t, depth=0):
     if k == 'conv':
         return fmt_term(t[2])
     return k + "(" + ", ".join(fmt_term(x) for x in t[1:]) + ")"
+
+
+def expand_calls(unit, t, depth=0):
+    """replace calls of pure expression functions of the fact base (a body that is one `return e;`, e.g. PGM_SUB_EPS
+    written as a constexpr function instead of a macro) by their body with the arguments substituted"""
+    if not isinstance(t, tuple) or depth > 8:
+        return t
+    t = tuple(expand_calls(unit, x, depth) for x in t)
+    if t and t[0] == 'call' and len(t) >= 3 and isinstance(t[1], str) and (len(t) < 4 or t[3] is None):
+        for f in unit.by_tname.get(t[1], []):
+            if len(f.params) == len(t[2]) and not f.record:
+                body = f.pure_return()
+                if body is not None:
+                    sub = {('param', p['name']): a for p, a in zip(f.params, t[2])}
+
+                    def rep(x):
+                        if isinstance(x, tuple):
+                            if x in sub:
+                                return sub[x]
+                            return tuple(rep(y) for y in x)
+                        return x
+                    return expand_calls(unit, rep(body), depth + 1)
+    return t
